@@ -59,6 +59,9 @@ PLAIN = [
     ("debug_fn", "tracing::field::debug(&v.s)", "Seen::Debug(dbg3(&v.s))", "debug"),
     ("debug_fn_f", "tracing::field::debug(v.f)", "Seen::Debug(dbg3(&v.f))", "debug"),
     ("error", "(&v.err as &(dyn std::error::Error + 'static))", "Seen::Error(v.err.chain())", "error"),
+    ("error_send", "(&v.err as &(dyn std::error::Error + Send + 'static))", "Seen::Error(v.err.chain())", "error"),
+    ("error_sync", "(&v.err as &(dyn std::error::Error + Sync + 'static))", "Seen::Error(v.err.chain())", "error"),
+    ("error_send_sync", "(&v.err as &(dyn std::error::Error + Send + Sync + 'static))", "Seen::Error(v.err.chain())", "error"),
 ]
 # expressions usable behind the % sigil (Display) and the ? sigil (Debug)
 DISPLAYABLE = ["v.s.as_str()", "v.u", "v.i", "v.f", "v.b", "(v.u as u8)", "&v.err", "v.w"]
@@ -214,7 +217,7 @@ def gen_form(rng, fid, force=None):
             # shorthand field `pN.val` (dotted path through a Probe whose Deref ticks)
             var = f"p{ticks}"
             if form == "short":
-                k = rng.choice([p for p in PLAIN if p[0] not in ("error", "bytes", "str", "refref_i64")])
+                k = rng.choice([p for p in PLAIN if not p[0].startswith("error") and p[0] not in ("bytes", "str", "refref_i64")])
                 pre.append(f"let {var} = Probe::new(ctr, {ticks}, {k[1]});")
                 fields_src.append(f"{var}.val")
                 expect.append(([f"{var}.val"], k[2]))
